@@ -74,9 +74,10 @@ func VerifC11Cursors() {
 	steps := vParam("steps", 4)
 	ctx := context.Background()
 	lagging := false
+	away := false // the cursors partition is led by another server at the moment
 	kinds := 7
 	if vParam("leaderlag", 1) == 1 {
-		kinds = 8
+		kinds = 9
 	}
 	for i := 0; i < steps; i++ {
 		if lagging && vChoose(2) == 1 {
@@ -98,6 +99,20 @@ func VerifC11Cursors() {
 			lagging = true
 			vTag("leader-change-hw-lag")
 			vCover("leader-change")
+		case 8: // the leadership of the cursors partition moves to another server, or back
+			if !away {
+				p.mu.Lock()
+				p.Leader = "srv-b"
+				p.mu.Unlock()
+				away = true
+				vCover("leadership-away")
+			} else {
+				p.mu.Lock()
+				p.Leader = "srv-a"
+				p.mu.Unlock()
+				s.cursors.BecomePartitionLeader()
+				away = false
+			}
 		case 6: // a cleaner interval passes: the log's own cleaner loop rolls an old active segment or compacts
 			vAdvance(time.Minute + time.Second)
 			vCover("cleaner-tick")
@@ -105,6 +120,10 @@ func VerifC11Cursors() {
 			id := ids[vChoose(2)]
 			off := []int64{0, 5, 300}[vChoose(3)] // one- and two-byte varints; distinct values per set
 			stt := s.cursors.SetCursor(ctx, "foo", id, 0, off)
+			if away {
+				vAssert(stt != nil, "a server that does not lead the cursors partition refuses SetCursor")
+				break
+			}
 			vAssert(stt == nil, "SetCursor succeeds")
 			if stt == nil {
 				model[id] = off
@@ -113,6 +132,12 @@ func VerifC11Cursors() {
 		case 1: // FetchCursor
 			id := ids[vChoose(2)]
 			got, stt := s.cursors.GetCursor(ctx, "foo", id, 0)
+			if away {
+				// it must not answer from what it cached while it was the leader:
+				// the real leader may have stored newer cursors since
+				vAssert(stt != nil, "a server that does not lead the cursors partition refuses FetchCursor instead of answering from its cache")
+				break
+			}
 			vAssert(stt == nil, "FetchCursor succeeds")
 			if stt == nil {
 				want, ok := model[id]
@@ -131,18 +156,29 @@ func VerifC11Cursors() {
 		case 4: // the idle cursors partition is paused and resumed: closed and reopened log, new partition object
 			vAssert(p.log.Close() == nil, "cursors log closes")
 			p = mk()
+			if away {
+				p.Leader = "srv-b"
+			}
 			st.SetPartition(0, p)
 			vCover("pause-resume")
 		case 5: // server restart: no cache, log reopened
 			vAssert(p.log.Close() == nil, "cursors log closes")
 			s.cursors = newCursorManager(s)
 			p = mk()
+			if away {
+				p.Leader = "srv-b"
+			}
 			st.SetPartition(0, p)
 			vCover("restart")
 		}
 		vYield()
 	}
 	// finally every cursor is fetched, cache bypassed
+	if away {
+		p.mu.Lock()
+		p.Leader = "srv-a"
+		p.mu.Unlock()
+	}
 	if lagging {
 		p.log.SetHighWatermark(p.log.NewestOffset())
 	}
